@@ -684,6 +684,39 @@ def validate(ck, runs, vs, name, count=True, opt=()):
     return rejected, sorted({int(i) for r in rejvs for i in r})
 
 
+def binding_demo(ck, runs, rejected, vs, badvs):
+    good = [r for t, r in enumerate(runs, 1) if t not in rejected and any(ev["gen"] for ev in r["trace"]["events"]) and any(v[1] == "user" for ev in r["trace"]["events"] for v in ev["vols"])]
+    if not good:
+        good = [SYNTHETIC]      # misbehaving code: no recorded trace is acceptable; demonstrate on a hand-written valid trace
+    base = json.loads(json.dumps(good[0]))
+    r0, _ = validate(ck, [base], [], "corrupt0", count=False)
+    if r0:
+        raise c.MachineryError("binding demonstration: the uncorrupted trace is rejected")
+    d1 = json.loads(json.dumps(base))
+    gev = next(ev for ev in d1["trace"]["events"] if ev["gen"])
+    gev["gen"][0]["cog0"] = False
+    d2 = json.loads(json.dumps(base))
+    gev2 = next(ev for ev in d2["trace"]["events"] if ev["op"] == "G")
+    gev2["tags"][0] = "0" * 32
+    d3 = json.loads(json.dumps(base))
+    ev3 = next((ev for ev in d3["trace"]["events"] if any(v[1] == "user" for v in ev["vols"])), d3["trace"]["events"][-1])
+    tgt = next((v for v in ev3["vols"] if v[1] == "user"), ev3["vols"][0])
+    tgt[1], tgt[2] = ("computed", 0) if tgt[1] == "user" else ("user", 123)
+    r1, _ = validate(ck, [d1], [], "corrupt1", count=False)
+    r2, _ = validate(ck, [d2], [], "corrupt2", count=False)
+    r3, _ = validate(ck, [d3], [], "corrupt3", count=False)
+    okvs = [v for i, v in enumerate(vs, 1) if i not in badvs][:2]
+    if len(okvs) < 2:
+        okvs = [{"kind": "synthetic", "matches_gmx": True, "equivariant": True}] * 2
+    vsbad = json.loads(json.dumps([{k: v[k] for k in ("kind", "matches_gmx", "equivariant")} for v in okvs]))
+    vsbad[1]["equivariant"] = False
+    _, r4 = validate(ck, [base], vsbad, "corrupt4", count=False)
+    if 1 not in r1 or 1 not in r2 or 1 not in r3 or r4 != [2]:
+        raise c.MachineryError("binding demonstration failed: corrupted records accepted (%s %s %s %s)" % (r1, r2, r3, r4))
+    ck.extra["binding_demo"] = ("a generated-template record with cog0=false, a residue carrying a foreign hash, a size whose source is altered and a construct_vs "
+                                "sample with equivariant=false are each rejected by TpTrace")
+
+
 SYNTHETIC = {"seed": -1, "content": {"syn0": {"rn": "RS", "nm": ["A", "B"], "ed": [[1, 2]]}}, "raw": [[], [], [{}]],
              "trace": {"types": ["syn0"], "sys": [["syn0"]], "bld": [{"e": "V", "t": "", "rn": "RS", "v": 500}],
                        "events": [{"op": "V", "vols": [["RS", "user", 500, True]], "tmpl": [], "hmap": [], "mol": 0, "tags": [], "gen": []},
@@ -869,33 +902,12 @@ def run(tier):
         raise c.MachineryError("vacuous I->S drivers: %s" % stats)
 
     ck.stage("binding demonstration")
-    good = [r for t, r in enumerate(runs, 1) if t not in rejected and any(ev["gen"] for ev in r["trace"]["events"]) and any(v[1] == "user" for ev in r["trace"]["events"] for v in ev["vols"])]
-    if not good:
-        good = [SYNTHETIC]      # misbehaving code: no recorded trace is acceptable; demonstrate on a hand-written valid trace
-    base = json.loads(json.dumps(good[0]))
-    r0, _ = validate(ck, [base], [], "corrupt0", count=False)
-    if r0:
-        raise c.MachineryError("binding demonstration: the uncorrupted trace is rejected")
-    d1 = json.loads(json.dumps(base))
-    gev = next(ev for ev in d1["trace"]["events"] if ev["gen"])
-    gev["gen"][0]["cog0"] = False
-    d2 = json.loads(json.dumps(base))
-    gev2 = next(ev for ev in d2["trace"]["events"] if ev["op"] == "G")
-    gev2["tags"][0] = "0" * 32
-    d3 = json.loads(json.dumps(base))
-    ev3 = next((ev for ev in d3["trace"]["events"] if any(v[1] == "user" for v in ev["vols"])), d3["trace"]["events"][-1])
-    tgt = next((v for v in ev3["vols"] if v[1] == "user"), ev3["vols"][0])
-    tgt[1], tgt[2] = ("computed", 0) if tgt[1] == "user" else ("user", 123)
-    r1, _ = validate(ck, [d1], [], "corrupt1", count=False)
-    r2, _ = validate(ck, [d2], [], "corrupt2", count=False)
-    r3, _ = validate(ck, [d3], [], "corrupt3", count=False)
-    vsbad = json.loads(json.dumps(vs[:2]))
-    vsbad[1]["equivariant"] = False
-    _, r4 = validate(ck, [base], vsbad, "corrupt4", count=False)
-    if 1 not in r1 or 1 not in r2 or 1 not in r3 or r4 != [2]:
-        raise c.MachineryError("binding demonstration failed: corrupted records accepted (%s %s %s %s)" % (r1, r2, r3, r4))
-    ck.extra["binding_demo"] = ("a generated-template record with cog0=false, a residue carrying a foreign hash, a size whose source is altered and a construct_vs "
-                                "sample with equivariant=false are each rejected by TpTrace")
+    try:
+        binding_demo(ck, runs, rejected, vs, badvs)
+    except c.MachineryError as exc:
+        if not ck.violations:
+            raise
+        ck.note("binding demonstration not conclusive on code that already violates the property: %s" % str(exc)[:300])
     ck.exhaustive = True
     return ck.finish()
 
